@@ -11,6 +11,7 @@ CONSTANTS
  MaxServes = 1
  MaxApplies = 1
  Faults = FALSE
+ KeepHist = TRUE
  Mutations = {"crossDuid", "crossDuidCreate", "crossDuidSubscribe", "crossDuidSubCreate", "crossCollection", "crossRegister", "sameKeyOtherCollection", "resetOther", "resetOwn"}
 INVARIANT LogNoRepeats
 INVARIANT LogEndRecorded
